@@ -180,6 +180,31 @@ def correspond(ctx):
                 ctx.disagree({"graph": c["graph"], "ops": c["ops"], "at_line": i, "line": line if line["op"] != "graph" else "graph"}, m, im,
                              "model outcome differs from the implementation")
                 break
+    submitted_tasks_part(ctx, ctx.scale(12, 120))
+
+
+def submitted_tasks_part(ctx, n):
+    """really submitted tasks (dry-run / generate-only experiments), among them tasks that mark one of their own parameters
+    as their output: every assignment attempt afterwards is rejected AND the identifier and job directory stay what they
+    were at submission, also when the attempt is followed by an identifier request"""
+    from . import c03
+    cases = [dict(c, poke=True) for c in c03.gen_prod_cases(ctx.rng, n)]
+    recs = identlib.run_worker({"cases": cases}, ctx.tmpdir(), "c14-prod", None, "xv.impl.prod_worker")
+    for case, rec in zip(cases, recs):
+        if rec["error"]:
+            ctx.count("submitted_case_errors", rec["error"][:60])
+            continue
+        ctx.case({"submitted_tasks_case": case}, True)
+        for pk in rec.get("pokes", []):
+            ctx.count("poke", f"{pk['cls']}:{'rejected' if pk['rejected'] else 'ACCEPTED'}")
+            if not pk["rejected"]:
+                ctx.monitor_fail("mutation-accepted-after-submit", f"assignment on a submitted {pk['cls']} task was accepted", {"submitted_tasks_case": case})
+                break
+            if pk["before"] != pk["after"]:
+                ctx.monitor_fail("identifier-moved-after-rejected-assignment",
+                                 f"a rejected assignment on a submitted {pk['cls']} task moved its identifier / job directory: "
+                                 f"{pk['before'][0][:16]}… {pk['before'][1][-40:]} -> {pk['after'][0][:16]}… {pk['after'][1][-40:]}", {"submitted_tasks_case": case})
+                break
 
 
 def search(ctx):
